@@ -108,6 +108,7 @@ class C14(Prop):
         ("lib/python/pyflyby/_util.py", "Aspect.unadvise"),
     ]
     parallel = False             # the shells live in the lab's own processes
+    BATCH = 400
     quick_cases = 800
     thorough_cases = 12000
     quick_deadline_s = 70
@@ -172,13 +173,14 @@ class C14(Prop):
 
     def _prefetch(self):
         self._ensure_ref()
-        todo = [c for c in self._planned if case_key(c) not in self._cache]
-        self._planned = []
-        if not todo:
-            return
+        # one batch at a time, in planning order, so that the deadline of the framework can cut the run short
         uniq = {}
-        for c in todo:
-            uniq.setdefault(case_key(c), c)
+        while self._planned and len(uniq) < self.BATCH:
+            c = self._planned.pop(0)
+            if case_key(c) not in self._cache:
+                uniq.setdefault(case_key(c), c)
+        if not uniq:
+            return
         keys = list(uniq)
         res = self.lab.run_mixed([self._job(uniq[k]) for k in keys])
         for k, r in zip(keys, res):
@@ -225,7 +227,7 @@ class C14(Prop):
             self.setup("quick", None)
         k = case_key(case)
         if k not in self._cache:
-            self._planned.append(case)
+            self._planned.insert(0, case)
             self._prefetch()
         obs = self._cache[k]
         if "lab_error" in obs:
